@@ -47,6 +47,11 @@ def jobs(tier):
                    defines=["-DH_GET_PARAMETER_VALUE"], unwind=4, union_struct=True, kind="proof",
                    canary=True, functions=["vnacal_get_parameter_value", "_vnacal_get_parameter"],
                    bound="none: all doubles", timeout=900))
+    J.append(V.Job("range.get_value_unsolved", H, "h_get_value_unsolved",
+                   ["vnacal_get_parameter_value.c", "vnacal_parameter.c"] + ERR,
+                   defines=["-DH_GET_PARAMETER_VALUE"], unwind=4, union_struct=True, kind="proof",
+                   canary=False, functions=["vnacal_get_parameter_value"],
+                   bound="none: any query frequency; unknown parameter left by a solve without frequencies", timeout=300))
     # --- spline: exact at knots (bounded number of segments)
     for n in ((1, 2) if tier == "quick" else (1, 2, 3, 4)):
         J.append(V.Job("spline.knots.n%d" % n, H, "h_spline_knots", ["vnacommon_spline.c"],
